@@ -392,6 +392,22 @@ def build(tier, rng):
                     g_max.check(v == ("ok", False), f"byte-matters:{name}", "changing one byte of a 4096-byte password still verifies (hash does not depend on every byte)", dict(wit, position=i, outcome=repr(v)[:60]))
                 v = call(hc.verify, pw[:-1], hs, **kw)
                 g_max.check(v == ("ok", False), f"byte-matters:{name}:last", "dropping the last byte of a 4096-byte password still verifies", dict(wit, outcome=repr(v)[:60]))
+                # short passwords around internal block sizes: the LAST byte matters at every length
+                lens = [1, 2, 7, 8, 9, 15, 16, 17, 24, 25, 33, 63, 64, 65] if quick else list(range(1, 131))
+                for m in lens:
+                    short = pw[:m]
+                    oh = call(hc.hash, short, **kw)
+                    if oh[0] != "ok":
+                        continue
+                    g_max.case((name, "short", m))
+                    wit2 = {"hasher": name, "length": m, "context": kw, "password": "base_pw[:%d] (seeded)" % m}
+                    if m > 1:
+                        v = call(hc.verify, short[:-1], oh[1], **kw)
+                        g_max.check(v == ("ok", False), f"last-byte-ignored:{name}", "dropping the last byte of a short password still verifies", dict(wit2, outcome=repr(v)[:60]))
+                    alt = distinct_byte(canon, {**kw}, short, m - 1, False)
+                    if alt is not None:
+                        v = call(hc.verify, alt, oh[1], **kw)
+                        g_max.check(v == ("ok", False), f"last-byte-ignored:{name}", "changing the last byte of a short password still verifies", dict(wit2, outcome=repr(v)[:60]))
     # one context with several schemes, default first and a deprecated one last
     try:
         multi = CryptContext(schemes=["sha256_crypt", "pbkdf2_sha256", "md5_crypt", "des_crypt"], deprecated=["des_crypt"], sha256_crypt__rounds=1000, pbkdf2_sha256__rounds=1)
